@@ -225,7 +225,7 @@ def run(ctx):
         "trusted: TLC, gzip/hashlib/difflib (and diff -e) as repository builders, the projection of file bytes to content ids",
     ]
     flavs = flavour_sets(ctx)
-    nproc = 6 if quick else 8
+    nproc = 6 if quick else 10
     pool = multiprocessing.get_context("fork").Pool(nproc)
     try:
         _run(ctx, quick, flavs, pool)
@@ -302,8 +302,8 @@ def _run(ctx, quick, flavs, pool):
     for idx, c in enumerate(cases):
         if quick:       # every behaviour once, plainest and sampled concretization alternating
             vs = ["canonical"] if (idx + ctx.seed) % 2 == 0 else ["random0"]
-        elif nvar == 1:  # many behaviours (all hash flavours): sampled once, every third also in plainest form
-            vs = ["random0"] + (["canonical"] if idx % 3 == 0 else [])
+        elif nvar == 1:  # many behaviours (all hash flavours): sampled once, every fifth also in plainest form
+            vs = ["random0"] + (["canonical"] if idx % 5 == 0 else [])
         else:
             vs = ["canonical"] + ["random%d" % j for j in range(nvar)]
         f = c["in"]["fault"]
@@ -317,7 +317,7 @@ def _run(ctx, quick, flavs, pool):
     opts = {"maxlen": 6, "diff_e": not quick}
     chunks = [tasks[i:i + 40] for i in range(0, len(tasks), 40)]
     replay_async = pool.map_async(R.replay_chunk, [(ctx.work, ctx.seed, ch, opts) for ch in chunks], chunksize=1)
-    ntr = 300 if quick else 3000
+    ntr = 300 if quick else 2000
     tchunks = [list(range(i, min(ntr, i + 25))) for i in range(0, ntr, 25)]
     trace_async = pool.map_async(R.record_chunk, [(ctx.work, ctx.seed, ch, topts) for ch in tchunks], chunksize=1)
 
@@ -331,7 +331,7 @@ def _run(ctx, quick, flavs, pool):
         tasks2.append(("two-%d" % i, cases2[i], "canonical" if (quick and j % 3 == 0) else "random0"))
         if j % 10 == 5:
             tasks2.append(("two-%d" % i, cases2[i], "stress"))
-        if not quick:
+        if not quick and j % 3 == 0:
             tasks2.append(("two-%d" % i, cases2[i], "canonical"))
     chunks2 = [tasks2[i:i + 30] for i in range(0, len(tasks2), 30)]
     replay2_async = pool.map_async(R.replay_chunk, [(ctx.work, ctx.seed, ch, opts) for ch in chunks2], chunksize=1)
